@@ -661,7 +661,7 @@ def run(run: Run):
     run.sample({"bfs_event_menu_at_start": [list(e) for e in Harness(2).enabled(Harness(2).fresh())][:12]})
     run.sample({"interleaving": {"base": "one-open", "history": [list(e) for e in next(iter(interleavings("one-open")))[1]]}})
     run.sample({"types_case": ["ObjectUpdate", 0, IN], "banned": _BANNED})
-    U.restore_uuid4()
+    U.shutdown()
 
 
 def replay(witness):
